@@ -306,6 +306,14 @@ def _switch_on_int(s, sp):
 
 OPS = _ops()
 
+# Instruction-level operators added after the type-level ones were calibrated: C17 runs them last, with what is
+# left of the tree's random stream, so that every earlier operator keeps the sites it used to pick.
+LATE_OPS = [
+    ("hardcoded-wrong-type", "bool-literal-wrong-letter-case",
+     lambda s, sp: s.ins is not None and s.ins.kind == "field" and not s.ins.optional and s.ins.type.split(":")[0] == "bool",
+     lambda s, sp: setattr(s.ins, "value", ("True", "FALSE", "tRuE", "False")[len(s.owner[0]) % 4])),
+]
+
 
 # ---------------- file / type level operators: (rule, name, applicable(spec), mutate(spec, rng))
 def _type_ops():
@@ -471,11 +479,11 @@ def _type_ops():
 TYPE_OPS = _type_ops()
 
 
-def instruction_mutants(spec, rng, per_op_placement=3):
+def instruction_mutants(spec, rng, per_op_placement=3, ops=None):
     """Yield (rule, operator, placement, mutated_spec) - at most per_op_placement sites per
     (operator, placement) pair, chosen at random among all eligible sites."""
     sites = list(walk_sites(spec))
-    for rule, name, eligible, mutate in OPS:
+    for rule, name, eligible, mutate in (OPS if ops is None else ops):
         by_place = {}
         for k, s in enumerate(sites):
             try:
